@@ -2,14 +2,14 @@
 # confirm a sub-agent's seeded change in ITS worktree: patch applies, suite passes, demo passes before / fails after
 # usage: seed_confirm.sh C01 a
 id=$1; v=$2
-wt=/tmp/seed/$id; out=/tmp/seed/${id}_out
+base=${SEEDBASE:-/tmp/seed}; wt=$base/$id; out=$base/${id}_out
 export GOFLAGS=-mod=mod GOPROXY=off GOSUMDB=off GOTOOLCHAIN=local
 cd $wt || exit 2
 git checkout -q -- . ; git clean -fdq
 U=$(echo $v | tr a-z A-Z)
 cp $out/demo_${v}_test.go $wt/zz_demo_${v}_test.go
 before=$(go test -vet=off -count=1 -run "TestSeedDemo$U\$" . 2>&1 | tail -1)
-if ! git apply $out/patch_$v.diff 2>/tmp/seed/apply_err; then echo "$id $v: PATCH DOES NOT APPLY: $(cat /tmp/seed/apply_err | head -2)"; rm -f $wt/zz_demo_${v}_test.go; exit 1; fi
+if ! git apply $out/patch_$v.diff 2>$base/apply_err; then echo "$id $v: PATCH DOES NOT APPLY: $(cat $base/apply_err | head -2)"; rm -f $wt/zz_demo_${v}_test.go; exit 1; fi
 after=$(go test -vet=off -count=1 -run "TestSeedDemo$U\$" . 2>&1 | tail -1)
 rm -f $wt/zz_demo_${v}_test.go
 suite=$(go test -vet=off -count=1 ./... 2>&1 | tail -1)
